@@ -203,7 +203,7 @@ def run(rep):
         broken.append("Coq obligations of Properties/C03.v: " + (po["log_tail"] or str(po["hygiene_problems"] or po["bad_axioms"])))
     opts = dict(OPTS, rounds=6 if tier == "quick" else 10)
     # VERIF_C03_N: smaller scenario count for the mutation self-test (short mutation windows)
-    n = int(os.environ.get("VERIF_C03_N") or (90 if tier == "quick" else 1200))
+    n = int(os.environ.get("VERIF_C03_N") or (90 if tier == "quick" else 1000))
     R = c05.run_replica_cases(rep, "C03", opts, n, rng, broken, extra_pred=extra_pred)
     cov = crash_coverage(R["cases"], R["outs"])
     gaps = coverage_gaps(cov)
